@@ -139,6 +139,16 @@ theorem pyInt_digits (e : Env) (s : Str) (h : AllD s) (hne : s ≠ []) :
     have h2 : c ≠ '+' := digit_ne hc (by decide)
     simp [h1, h2, intBody_digits_ne e (c :: cs) h hne false, dval]
 
+theorem all_of_AllD {s : Str} (h : AllD s) : s.all isAsciiDigit = true :=
+  List.all_eq_true.2 h
+
+/-- the strict `parse_int` on a non-empty run of ASCII digits -/
+theorem parseInt_digits (e : Env) (s : Str) (h : AllD s) (hne : s ≠ []) :
+    parseInt e s = some ((dval s : Nat) : Int) := by
+  unfold parseInt
+  have h1 : s.isEmpty = false := by cases s <;> simp_all
+  simp [h1, all_of_AllD h, pyInt_digits e s h hne]
+
 /-! ### `str(n)` and zero padding -/
 
 /-- the digit character of `d < 10` -/
@@ -282,6 +292,9 @@ theorem zpad_length (n w : Nat) (hw : 1 ≤ w) (h : n < 10 ^ w) : (zpad n w).len
 theorem pyInt_zpad (e : Env) (n w : Nat) : e.pyInt (zpad n w) = some (n : Int) := by
   rw [pyInt_digits e _ (zpad_AllD n w) (zpad_ne_nil n w), dval_zpad]
 
+theorem parseInt_zpad (e : Env) (n w : Nat) : parseInt e (zpad n w) = some (n : Int) := by
+  rw [parseInt_digits e _ (zpad_AllD n w) (zpad_ne_nil n w), dval_zpad]
+
 theorem zpadInt_ofNat (n w : Nat) : zpadInt (n : Int) w = zpad n w := by
   have : ¬ ((n : Int) < 0) := by omega
   simp [zpadInt, this]
@@ -340,7 +353,7 @@ theorem parseDigits_ok (e : Env) {v : Str} {i n : Nat} {r : Str} (hn : n < 100)
   have hl : (zpad n 2).length = 2 := zpad_length n 2 (by decide) (by simpa using hn)
   have hs := h.slice
   rw [hl] at hs
-  simp [parseDigits, hs, pyInt_zpad]
+  simp [parseDigits, hs, parseInt_zpad]
 
 theorem Sfx.adv_zpad2 {v : Str} {i n : Nat} {r : Str} (hn : n < 100)
     (h : Sfx v i (zpad n 2 ++ r)) : Sfx v (i + 2) r := by
@@ -412,7 +425,7 @@ theorem parseMinimumDigits_ok (e : Env) {v : Str} {i y : Nat} {r : Str} (hr : No
   have hidx : i + 4 + ((zpad y 4).drop 4).length = i + (zpad y 4).length := by simp; omega
   unfold parseMinimumDigits
   simp only []
-  rw [hscan, hidx, h.slice, pyInt_zpad]; rfl
+  rw [hscan, hidx, h.slice, parseInt_zpad]; rfl
 
 theorem dropWhile_replicate0 (k : Nat) (c : Char) (t : Str) (hc : c ≠ '0') :
     (List.replicate k '0' ++ c :: t).dropWhile (· = '0') = c :: t := by
@@ -539,7 +552,7 @@ theorem parseFrac_some (e : Env) {v : Str} {i : Nat} {ds r : Str} (hd : AllD ds)
   simp only [h.lt, decide_true, Bool.true_and, beq_self_eq_true, if_true]
   unfold parseFixedDigits
   simp only []
-  rw [hscan, h1.slice, pyInt_digits e _ hall hne', hval]; rfl
+  rw [hscan, h1.slice, parseInt_digits e _ hall hne', hval]; rfl
 
 /-- the fractional part as printed by `format_time` -/
 def fracStr (f : Nat) : Str :=
